@@ -201,6 +201,121 @@ pub fn solve_core(core: Arc<CoreProblem>, cfg: &SolveCfg, quota: Option<Arc<dyn 
 }
 
 
+/// Solves through the CLI's JSON solver configuration (`vrp_cli::extensions::solve::config`): the configuration creates its
+/// own environment (non-repeatable random, default pools); the run is pinned by reseeding both thread-local generators and
+/// by executing every parallel wrapper on the calling thread (hooks H1, H2, H2b).
+pub fn solve_cli_config(problem: &PProblem, config: &Value, seed: u64) -> Result<Solved, String> {
+    use vrp_cli::extensions::solve::config::{Config, create_builder_from_config};
+    // every scenario starts from the same generator states, whatever ran before it in the process
+    reseed(seed ^ 0xc11);
+    let core = read_problem(problem)?;
+    reseed(seed);
+    install_policy(PlanPolicy::Sequential);
+    // the configured heuristics measure operator durations (dynamic selection, time based estimates): virtual time, 1 us per read
+    rosomaxa::utils::verif_clock::enable(1);
+    let result = catch(|| -> Result<Solved, String> {
+        let cfg: Config = serde_json::from_value(config.clone()).map_err(|e| format!("solver config not read: {e}"))?;
+        let builder = create_builder_from_config(core.clone(), vec![], &cfg).map_err(|e| format!("solver config rejected: {e}"))?;
+        let config = builder.build().map_err(|e| format!("solver config rejected: {e}"))?;
+        let solution = Solver::new(core.clone(), config).solve().map_err(|e| format!("solve error: {e}"))?;
+        let json = write_solution(core.as_ref(), &solution)?;
+        Ok(Solved { core: core.clone(), solution, json })
+    });
+    rosomaxa::utils::verif_clock::disable();
+    uninstall_plan();
+    match result {
+        Ok(r) => r,
+        Err(p) => Err(format!("panic: {p}")),
+    }
+}
+
+/// The alphabet of CLI solver configurations: every ruin method x every recreate method as the only operator, every local
+/// search operator, decomposition, context dependent probabilities, the dynamic hyper-heuristic; populations rotate.
+pub fn cli_configs(generations: usize) -> Vec<(String, Value)> {
+    use serde_json::json;
+    let populations = [
+        json!({"type": "greedy", "selectionSize": 2}),
+        json!({"type": "elitism", "maxSize": 2, "selectionSize": 2}),
+        json!({"type": "rosomaxa", "selectionSize": 2, "maxEliteSize": 2, "maxNodeSize": 2, "spreadFactor": 0.5, "distributionFactor": 0.5, "rebalanceMemory": 10, "explorationRatio": 0.5}),
+    ];
+    let ruins = vec![
+        json!({"type": "adjusted-string", "probability": 1.0, "lmax": 4, "cavg": 2, "alpha": 0.01}),
+        json!({"type": "neighbour", "probability": 1.0, "min": 1, "max": 3}),
+        json!({"type": "random-job", "probability": 1.0, "min": 1, "max": 3}),
+        json!({"type": "random-route", "probability": 1.0, "min": 1, "max": 2}),
+        json!({"type": "close-route", "probability": 1.0}),
+        json!({"type": "worst-route", "probability": 1.0}),
+        json!({"type": "worst-job", "probability": 1.0, "min": 1, "max": 3, "skip": 2}),
+        json!({"type": "cluster", "probability": 1.0, "min": 1, "max": 3}),
+    ];
+    let recreates = vec![
+        json!({"type": "cheapest", "weight": 1}),
+        json!({"type": "skip-best", "weight": 1, "start": 1, "end": 2}),
+        json!({"type": "blinks", "weight": 1}),
+        json!({"type": "gaps", "weight": 1, "min": 1, "max": 3}),
+        json!({"type": "nearest", "weight": 1}),
+        json!({"type": "skip-random", "weight": 1}),
+        json!({"type": "slice", "weight": 1}),
+        json!({"type": "farthest", "weight": 1}),
+        json!({"type": "perturbation", "weight": 1, "probability": 0.5, "min": -0.2, "max": 0.2}),
+        json!({"type": "regret", "weight": 1, "start": 2, "end": 3}),
+    ];
+    let noise = json!({"probability": 0.5, "min": -0.1, "max": 0.1});
+    let locals = vec![
+        json!({"type": "swap-star", "weight": 1}),
+        json!({"type": "inter-route-best", "weight": 1, "noise": noise}),
+        json!({"type": "inter-route-random", "weight": 1, "noise": noise}),
+        json!({"type": "intra-route-random", "weight": 1, "noise": noise}),
+        json!({"type": "sequence", "weight": 1}),
+    ];
+    let scalar = json!({"scalar": 1.0});
+    let mut hypers: Vec<(String, Value)> = vec![("dynamic".into(), json!({"type": "dynamic-selective"}))];
+    for r in &ruins {
+        for c in &recreates {
+            hypers.push((
+                format!("rr:{}+{}", r["type"].as_str().unwrap_or(""), c["type"].as_str().unwrap_or("")),
+                json!({"type": "static-selective", "operators": [{"type": "ruin-recreate", "probability": scalar, "ruins": [{"weight": 1, "methods": [r]}], "recreates": [c]}]}),
+            ));
+        }
+    }
+    for l in &locals {
+        hypers.push((
+            format!("local:{}", l["type"].as_str().unwrap_or("")),
+            json!({"type": "static-selective", "operators": [{"type": "local-search", "probability": scalar, "times": {"min": 1, "max": 2}, "operators": [l]}]}),
+        ));
+    }
+    hypers.push(("decomposition".into(), json!({"type": "static-selective", "operators": [{"type": "decomposition", "routes": {"min": 2, "max": 4}, "repeat": 2, "probability": scalar}]})));
+    hypers.push((
+        "context-probability".into(),
+        json!({"type": "static-selective", "operators": [
+            {"type": "ruin-recreate",
+             "probability": {"threshold": {"jobs": 1, "routes": 1}, "phases": [{"type": "initial", "chance": 1.0}, {"type": "exploration", "chance": 1.0}, {"type": "exploitation", "chance": 1.0}]},
+             "ruins": [{"weight": 1, "methods": [ruins[0], ruins[2]]}, {"weight": 1, "methods": [ruins[4]]}], "recreates": [recreates[0], recreates[9]]},
+            {"type": "local-search", "probability": {"scalar": 0.5}, "times": {"min": 1, "max": 2}, "operators": [locals[1], locals[4]]}]}),
+    ));
+    hypers.push(("static-default".into(), json!({"type": "static-selective"})));
+    hypers
+        .into_iter()
+        .enumerate()
+        .map(|(i, (name, hyper))| {
+            (
+                name,
+                json!({
+                    "evolution": {
+                        "initial": {"method": recreates[i % recreates.len()], "alternatives": {"methods": [recreates[(i + 3) % recreates.len()], recreates[(i + 7) % recreates.len()]], "maxSize": 2, "quota": 0.05}},
+                        "population": populations[i % populations.len()],
+                    },
+                    "hyper": hyper,
+                    "termination": {"maxGenerations": generations},
+                    // NOTE: no `parallelism` section: it creates real thread pools eagerly (their threads disturb the allocation
+                    // order and with it everything which hashes by address); the wrappers run on the calling thread anyway (H1)
+                    "environment": {"logging": {"enabled": false}},
+                }),
+            )
+        })
+        .collect()
+}
+
 /// Debug aid: wraps the hyper-heuristic and reports the first offspring which does not account for every job.
 struct TraceConservation {
     inner: TargetHeuristic,
